@@ -45,17 +45,20 @@ func (c *VCtx) isClosed(st *State, ch *Term) *Term {
 	return And(Ge(c.closedAt(ch), IntLit(0)), Le(c.closedAt(ch), c.now(st)))
 }
 
-// atomicHook is called before (pre=true) and after an atomic operation on location l.
-func (c *VCtx) atomicHook(fr *Frame, st *State, l *Loc, pre bool) {}
+
 
 // observe lets an arbitrary amount of time pass (other threads may have closed channels / cancelled contexts).
 func (c *VCtx) observe(st *State) {
-	before := st.clone()
+	c.observeWith(st, st.clone())
+}
+
+func (c *VCtx) observeWith(st *State, before *State) {
 	old := c.now(st)
 	n := c.fresh("now", SInt)
 	c.fact(Ge(n, old))
 	st.heaps["G:now"] = n
 	c.stableFacts(before, st)
+	c.sharedHavoc(st, before)
 }
 
 // stableFacts: predicates declared stable for monitors whose lock is held survive the passage of time
@@ -450,6 +453,9 @@ func (c *VCtx) release(fr *Frame, st *State, lock *Term, pos token.Pos) {
 				fmt.Sprintf("two-state guarantee of %s over the critical section (%s): %s", m.spec.Type, c.eng.pos(pos), tr.Src), st.pc, g)
 		}
 	}
+	if len(h.specs) > 0 && len(c.globalClauses()) > 0 {
+		c.assertGlobal(st, h.specs[0].entry, fmt.Sprintf("cs%d", c.csCount))
+	}
 	delete(st.held, lock.S)
 }
 
@@ -493,39 +499,19 @@ func (c *VCtx) ghostFieldHeap(stT types.Type, field string) (string, Sort) {
 	return "", ""
 }
 
-// ghostHeap resolves a package-level ghost map "name: K -> V".
+// ghostHeap resolves a package-level ghost map by name (maps of imported packages are visible too).
 func (c *VCtx) ghostHeap(pkg, name string) (string, Sort) {
-	ps := c.eng.Specs[pkg]
-	if ps != nil {
-		for _, g := range ps.Ghosts {
-			if g.Name == name {
-				k, v, ok := strings.Cut(g.Type, "->")
-				if !ok {
-					unsup("ghostmap %s needs K -> V", name)
-				}
-				sc := &Scope{c: c, pkg: pkg}
-				ks, _ := c.specSort(sc, strings.TrimSpace(k))
-				vs, _ := c.specSort(sc, strings.TrimSpace(v))
-				return "G:" + shortPkg(pkg) + "." + name, ArrSort(ks, vs)
-			}
-		}
+	if gi := c.ghostMapByName(name); gi != nil {
+		return gi.heap, gi.sort
 	}
 	unsup("unknown ghost map %s", name)
 	return "", ""
 }
 
 func (c *VCtx) ghostCall(sc *Scope, x *ECall) (Val, bool) {
-	// name(k): lookup in a package-level ghost map
-	ps := c.eng.Specs[sc.pkg]
-	if ps == nil {
-		return nil, false
-	}
-	for _, g := range ps.Ghosts {
-		if g.Name == x.Fn && len(x.Args) == 1 {
-			name, sort := c.ghostHeap(sc.pkg, g.Name)
-			h := c.heap(sc.state(), name, sort)
-			return Select(h, c.asTerm(c.translate(sc, x.Args[0]))), true
-		}
+	if gi := c.ghostMapByName(x.Fn); gi != nil && len(x.Args) == 1 {
+		h := c.heap(sc.state(), gi.heap, gi.sort)
+		return Select(h, c.asTerm(c.translate(sc, x.Args[0]))), true
 	}
 	return nil, false
 }
@@ -644,9 +630,24 @@ func (c *VCtx) ghostAssign(fr *Frame, st *State, ct *FuncContract, g *GhostStmt,
 		h := c.heap(st, name, sort)
 		c.setHeap(st, name, Store(h, base, v))
 	case *ECall:
-		name, sort := c.ghostHeap(sc.pkg, l.Fn)
+		gi := c.ghostMapByName(l.Fn)
+		if gi == nil {
+			unsup("unknown ghost map %s", l.Fn)
+		}
+		name, sort := gi.heap, gi.sort
 		h := c.heap(st, name, sort)
 		k := c.asTerm(c.translate(sc, l.Args[0]))
+		switch gi.kind {
+		case "owned":
+			// an entry may only be claimed when free or changed by its holder, and only to me / zero
+			old := Select(h, k)
+			c.prove("ghost.owned."+gi.name, fmt.Sprintf("owned ghost map %s: the entry written is free or mine, and becomes mine or free (%s)", gi.name, g.Src), st.pc,
+				And(Or(Eq(old, T(old.Sort, gi.zero)), Eq(old, c.me), Eq(v, old)), Or(Eq(v, c.me), Eq(v, T(old.Sort, gi.zero)), Eq(v, old))), nil)
+		case "once":
+			old := Select(h, k)
+			c.prove("ghost.once."+gi.name, fmt.Sprintf("set-once ghost map %s: the entry written was unset or keeps its value (%s)", gi.name, g.Src), st.pc,
+				Or(Eq(old, T(old.Sort, gi.zero)), Eq(v, old)), nil)
+		}
 		c.setHeap(st, name, Store(h, k, v))
 	default:
 		unsup("ghost assignment target %T", lhs)
